@@ -1,8 +1,9 @@
 (* ApiDiv.v — correspondence entry points for C02.  Definitions only.
    A division by zero is printed as the empty byte string (the DivByZero tag). *)
 From Coq Require Import ZArith List Bool.
-From Mpir Require Import Word Limbs MpnBasicDefs MpzDefs DivDefs ApiBasic.
+From Mpir Require Import Word Limbs MpnBasicDefs MpzDefs DivDefs ApiBasic DcDivDefs.
 Import ListNotations.
+From MpirGen Require Import Gen_Tables.
 Local Open Scope Z_scope.
 
 Definition out_zval (x : Z) : list tok := [TZ x; TZ (sz (mpz_of_Z x))].
@@ -86,3 +87,10 @@ Definition api_mpz_congruent_2exp_p : api := fun a => [TZ (b2z (congruent_2exp_p
 Definition api_divcheck : api := fun a =>
   let n := argz a 0 in let d := argz a 1 in let q := argz a 2 in let r := argz a 3 in
   [TZ (b2z ((0 <=? r) && (r <? Z.abs d) && divcheck_residues n d q r))].
+
+(* mpn_dc_div_qr_n n N D : the divide-and-conquer model with the threshold of the table in the tree, exact base case,
+   four iterations allowed to each correction loop (theorem C02_dc_div_qr_n: never more are needed) *)
+Definition api_mpn_dc_div_qr_n : api := fun t =>
+  let n := argz t 0 in
+  let '(qh, q, r) := dc_div_qr_n exact_basediv 64 4 (Z.max 6 thr_DC_DIV_QR_THRESHOLD) n (argz t 1) (argz t 2) in
+  [TZ qh; TZ q; TZ r].
